@@ -147,21 +147,9 @@ def remove_cand(
         return cast(COB, clean_profile)
 
     elif isinstance(profile_or_ballots, Ballot):
-        clean_profile = None
-
-        if leave_zero_weight_ballots:
-            clean_profile = PreferenceProfile(
-                ballots=tuple(scrubbed_ballots),
-            )
-        else:
-            clean_profile = PreferenceProfile(
-                ballots=tuple([b for b in scrubbed_ballots if b.weight > 0]),
-            )
-
-        if condense:
-            clean_profile = clean_profile.condense_ballots()
-
-        return cast(COB, clean_profile.ballots[0])
+        # a single ballot maps to a single ballot; one that loses all of its candidates
+        # becomes the empty ballot of weight zero (there is no tuple to drop it from)
+        return cast(COB, scrubbed_ballots[0])
     else:
         clean_profile = None
 
